@@ -36,6 +36,18 @@ def run(ctx):
                      "spad": rng.choice([0, 1, 100, 8050, 8051]), "cpad": rng.choice([77, 78, 1000, 8127, 8128]),
                      "refpad": rng.random() < 0.5, "rseed": rng.randrange(1 << 30), "wire": True, "script": sc,
                      "skew": (0, -1, 1)[(i // 2) % 3] if c == "ref" else 0})
+    # a conforming bridge that speaks first: maximal (and nearly maximal) response padding, the seed frame and the first data
+    # frames right behind it, and a segmentation whose first piece ends before the mark - the client has more than 8192 bytes
+    # buffered when it finds mark and MAC, which is right (only the SERVER may insist that nothing follows a handshake)
+    j = 0
+    for spad in (8051, 8050, 8000, 7000):
+        for k in (1448, 4000, 8100, 8150):
+            sc = {"cw": [100], "sw": [3000, 1427, 100], "c2s": {"mode": "whole", "k": 0, "seed": j}, "s2c": {"mode": "fixed", "k": k, "seed": j, "hold_first_write": True},
+                  "rbuf": [4096], "lockstep": False, "quiesce_each": False}
+            scen.append({"id": "longresp%d" % j, "client": "real", "server": "ref", "seed": hashlib.sha256(b"c06-long-%d-%d" % (ctx.seed, j)).hexdigest()[:48],
+                         "siat": 0, "ciat": j % 3, "biased": False, "legacy": j % 2 == 1, "spad": spad, "cpad": 100, "refpad": True, "rseed": 1000 + j,
+                         "wire": True, "script": sc, "skew": 0})
+            j += 1
     binary = ctx.go_build("./cmd/c01")
     traces = ctx.exec_scenarios(binary, scen, "c06", shards=14, timeout=2400)
     if len(traces) != len(scen) and not any(t.get("crashed") for t in traces):
